@@ -535,7 +535,12 @@ class Changelog(object):
                 self._parse_error('Empty changelog file.', strict)
                 return
 
-            file = file.splitlines()
+            # Only CR, LF and CRLF end a line (str.splitlines() would also
+            # split on form feeds, U+2028 and other characters inside a line)
+            lines = re.split(r'\r\n|\r|\n', file)
+            if lines and lines[-1] == '':
+                lines.pop()
+            file = lines
         for line in file:
             if not isinstance(line, str):
                 line = line.decode(encoding)
